@@ -268,6 +268,8 @@ def run_case(prog):
             (ok, dict(sf, action_type="wrong"), efl, False),
             (ok, dict(sf, absent_key=1), efl, False),
             (ok, sf, dict(efl, absent_key=1), False),
+            (ok, dict(sf, absent_key=None), efl, False),
+            (ok, sf, dict(efl, absent_key=None), False),
         ]
         for succ, s_, e_, should in trials:
             try:
@@ -282,7 +284,7 @@ def run_case(prog):
     for mt in mtypes:
         first = [m for m in msgs if m.get("message_type") == mt][0]
         sub = {k: v for k, v in first.items() if k in ("serial", "message_type")}
-        for fields, should in ((sub, True), ({}, True), (None, True), (dict(sub, serial=-1), False), (dict(sub, nokey=1), False)):
+        for fields, should in ((sub, True), ({}, True), (None, True), (dict(sub, serial=-1), False), (dict(sub, nokey=1), False), (dict(sub, nokey=None), False)):
             try:
                 r = assertHasMessage(tc, logger, _MT(mt), fields)
                 passed = r.message is first
